@@ -466,7 +466,16 @@ class MultiStream(Stream):
             self.phase, = phases
         phases = phase_tuple(phases)
         if phases != self.phases:
-            self._imol = self._imol.to_material_indexer(phases)
+            self._imol = imol = self._imol.to_material_indexer(phases)
+            streams = self._streams
+            for phase in tuple(streams):
+                if phase in phases:
+                    # Keep phase views attached to the new material data
+                    indexer = streams[phase]._imol
+                    indexer.data = imol.data.rows[imol.get_phase_index(phase)]
+                    indexer._data_cache.clear()
+                else:
+                    del streams[phase]
             self.reset_cache()
     
     ### Flow properties ###
